@@ -135,6 +135,15 @@ func C13Undef(site int) {
 		expect("undefined/union-struct-branch", app(nil, base, "union U { 1 -> struct B { ", ref, " f; } }\n"), bad)
 	case 6:
 		expect("undefined/union-message-branch", app(nil, base, "union U { 1 -> message B { 1 -> ", ref, " f; } }\n"), bad)
+	case 7:
+		// sparse indices: the offending field's index exceeds the number of fields
+		expect("undefined/message-field-sparse", app(nil, base, "message M { 2 -> int32 a; 9 -> ", ref, " f; }\n"), bad)
+	case 8:
+		expect("undefined/message-field-high-index", app(nil, base, "message M { 200 -> map[string, ", ref, "[]] f; }\n"), bad)
+	case 9:
+		expect("undefined/struct-later-field", app(nil, base, "struct S { int32 a; string b; Ta c; ", ref, " f; }\n"), bad)
+	case 10:
+		expect("undefined/map-key-ok-value-bad", app(nil, base, "struct S { map[guid, map[int32, ", ref, "]] f; }\n"), bad)
 	}
 }
 
